@@ -227,7 +227,21 @@ def check(rep, prog, fn):
         if any(lp.is_ancestor_of(n) for (n, v) in trues):
             init = lp
             break
-    if init is None:
+    # the liveness table may be born live: std::vector<bool> exists(n, true)
+    born_live = False
+    for d_ in fn.walk():
+        if d_.k == 'VarDecl' and d_.decl_id == m.exists_t and d_.c:
+            c0 = d_.c[0].strip()
+            if c0.k in ex.CTOR_KINDS and len(c0.c) >= 2 and c0.c[1].strip_all().cv == 1:
+                born_live = True
+    if init is None and born_live:
+        for lp in init_loops:
+            if any(n_.k == 'BinaryOperator' and n_.op == '=' and lp.is_ancestor_of(n_) and (m.table_access(n_.c[0]) or (None,))[0] == m.degree_t for n_ in m.nodes):
+                init = lp
+                break
+    if init is None and born_live:
+        rep.undecided('R13a', fn.body, fn, whata, 'the liveness table is constructed live, but no loop over boost::vertices(g) fills the degree table')
+    elif init is None:
         rep.violation('R13a', fn.body, fn, whata, 'no loop over boost::vertices(g) sets the liveness flags', key='R13a|%s|no-init' % fn.g)
     else:
         probs = []
